@@ -309,7 +309,8 @@ func (db *DB) ListKeys() [][]byte {
 	keys := make([][]byte, 0, db.index.Size())
 	// 直接通过迭代器遍历获取所有 key
 	for iterator.Rewind(); iterator.Valid(); iterator.Next() {
-		keys = append(keys, iterator.Key())
+		// 返回副本: BTree 与 SkipList 索引的迭代器返回的是索引内部持有的 key, 调用方修改后会破坏索引
+		keys = append(keys, append([]byte{}, iterator.Key()...))
 	}
 	return keys
 }
@@ -327,7 +328,8 @@ func (db *DB) Fold(fn func(key []byte, value []byte) bool) error {
 		}
 
 		// 将遍历的每项交给传入函数处理
-		if !fn(iterator.Key(), value) {
+		// key 同样传入副本, 避免调用方修改索引内部持有的 key
+		if !fn(append([]byte{}, iterator.Key()...), value) {
 			// 函数返回 false 时终止遍历
 			break
 		}
